@@ -799,4 +799,448 @@ theorem variable_safe (s : St) (hw : WF ctx s) : Safe ctx (parseVariable ctx (ex
 theorem refExpr_safe (s : St) (hw : WF ctx s) : Safe ctx (refExpr ctx none) s :=
   refParse_safe ctx hw (expression_safe ctx _ (wf_reref ctx hw))
 
+/-! ### type expressions -/
+
+theorem arrayTypeInner_safe (pt : Option (Ref TypeExpr) → P (Ref TypeExpr)) (s : St) (hw : WF ctx s)
+    (hpt : ∀ s', WF ctx s' → s.pos < s'.pos → Safe ctx (pt none) s') : Safe ctx (arrayTypeInner ctx none none pt) s := by
+  unfold arrayTypeInner
+  refine tkbind_safe ctx _ _ s hw (fun s1 _ w1 l1 _ => ?_)
+  have h1 := expectInc_safe ctx (tk ctx .LBracket) (.ExpectedToken ['[']) s1 w1 (tk_safe ctx _ s1 w1)
+  refine bind_safe ctx h1 (fun s2 _ e2 => ?_)
+  have w2 := h1.wf_ok ctx w1 e2
+  have p2 := h1.ok _ _ e2
+  have h2 := (expect_safe ctx (.ExpectedToken (chars "int literal")) w2 (parser := parseIntLiteral ctx) (intLit_safe ctx s2 w2)).1
+  refine bind_safe ctx h2 (fun s3 _ e3 => ?_)
+  have w3 := h2.wf_ok ctx w2 e3
+  have p3 := h2.ok _ _ e3
+  have h3 := expectInc_safe ctx (tk ctx .RBracket) (.MissingClosing ']') s3 w3 (tk_safe ctx _ s3 w3)
+  refine bind_safe ctx h3 (fun s4 _ e4 => ?_)
+  have w4 := h3.wf_ok ctx w3 e4
+  have p4 := h3.ok _ _ e4
+  have h4 := expectInc_safe ctx (tk ctx .Of) (.ExpectedToken (chars "of")) s4 w4 (tk_safe ctx _ s4 w4)
+  refine bind_safe ctx h4 (fun s5 _ e5 => ?_)
+  have w5 := h4.wf_ok ctx w4 e5
+  have p5 := h4.ok _ _ e5
+  have h5 := (expect_safe ctx (.ExpectedToken (chars "type expression")) w5 (parser := pt)
+    (hpt s5 w5 (by have := p2.1; have := p3.1; have := p4.1; have := p5.1; omega))).1
+  exact bind_safe ctx h5 (fun s6 _ e6 => pure_safe ctx _ s6 (h5.wf_ok ctx w5 e6))
+
+/-- two levels of recursive descent per remaining token -/
+structure TSafe (F : Nat) : Prop where
+  te : ∀ s, WF ctx s → 2 * (ctx.toks.size - s.pos) + 2 ≤ F → Safe ctx (parseTypeExpr ctx F none) s
+  arr : ∀ s, WF ctx s → 2 * (ctx.toks.size - s.pos) + 1 ≤ F → Safe ctx (parseArrayType ctx F none) s
+
+theorem tsafe : ∀ F, TSafe ctx F
+  | 0 => ⟨by intro s _ h; omega, by intro s _ h; omega⟩
+  | F + 1 => by
+    have ih := tsafe F
+    refine ⟨?_, ?_⟩
+    · intro s hw hf
+      show Safe ctx (alt2 (parseArrayType ctx F none) (pmap TypeExpr.named (parseIdentifier ctx none))) s
+      exact alt2_safe ctx (ih.arr s hw (by omega)) (pmap_safe ctx _ (ident_safe ctx s hw))
+    · intro s hw hf
+      show Safe ctx (pmap _ (info (arrayTypeInner ctx none none (refParse (parseTypeExpr ctx F))))) s
+      refine pmap_safe ctx _ (info_safe' ctx hw (fun s0 e0 r0 w0 => ?_))
+      refine arrayTypeInner_safe ctx _ s0 w0 (fun s1 w1 l1 => ?_)
+      exact refParse_safe ctx w1 (ih.te _ (wf_reref ctx w1) (by
+        have := w1.2
+        show 2 * (ctx.toks.size - s1.pos) + 2 ≤ F
+        omega))
+
+theorem refTypeExpr_safe (s : St) (hw : WF ctx s) : Safe ctx (refTypeExpr ctx none) s :=
+  refParse_safe ctx hw ((tsafe ctx _).te _ (wf_reref ctx hw) (by
+    have := hw.2
+    show 2 * (ctx.toks.size - s.pos) + 2 ≤ typeFuel ctx
+    simp only [typeFuel]; omega))
+
+/-! ### comma separated lists, arguments, calls, assignments -/
+
+theorem parseList_eq {α} (range : α → Range) (parseT : Option α → P α) (s : St) :
+    parseList ctx range parseT (loopFuel ctx) none s =
+      Parse.bind (refParse parseT none) (fun head =>
+        pmap (fun (tail : List (Ref (Ref α))) => head :: tail.map (fun r => ⟨r.val.val, r.offset + r.val.offset⟩))
+          (many ctx (fun (inner : Ref α) => let r := range inner.val; (⟨r.lo, r.hi + 1⟩ : Range))
+            (fun this => Parse.bind (tagK ctx (loopFuel ctx) .Comma) (fun _ => refParse parseT this)) (loopFuel ctx) none)) s := by
+  simp only [parseList, Parse.bind, pmap]
+  cases refParse parseT none s with
+  | ok s1 head =>
+    simp only [Option.getD, List.any_nil, Bool.false_eq_true, if_false, Option.map_none]
+    split <;> rename_i h <;> simp only [h]
+  | err k x => rfl
+  | panic e => rfl
+
+theorem parseList_safe {α} (range : α → Range) (parseT : Option α → P α) (s : St) (hw : WF ctx s)
+    (hp : ∀ s', WF ctx s' → s.pos ≤ s'.pos → Safe ctx (parseT none) { s' with refPos := s'.pos }) :
+    Safe ctx (parseList ctx range parseT (loopFuel ctx) none) s := by
+  refine safe_congr ctx (parseList_eq ctx range parseT s) ?_
+  have h0 := refParse_safe ctx hw (hp s hw (Nat.le_refl _))
+  refine bind_safe ctx h0 (fun s1 head e1 => ?_)
+  have w1 := h0.wf_ok ctx hw e1
+  have p1 := h0.ok _ _ e1
+  refine pmap_safe ctx _ (many_safe ctx _ _ s1 w1 (fun s2 w2 l2 => ?_))
+  have w2' := wf_reref ctx w2
+  refine tkbind_safe ctx .Comma _ _ w2' (fun s3 _ w3 l3 _ => ?_)
+  exact refParse_safe ctx w3 (hp s3 w3 (by have := p1.1; have : ({ s2 with refPos := s2.pos } : St).pos = s2.pos := rfl; omega))
+
+theorem argument_safe (s : St) (hw : WF ctx s) : Safe ctx (parseArgument ctx none) s := by
+  show Safe ctx (alt2 _ _) s
+  refine alt2_safe ctx ?_ ?_
+  · have h0 := expression_safe ctx s hw
+    refine bind_safe ctx h0 (fun s1 e e1 => ?_)
+    have w1 := h0.wf_ok ctx hw e1
+    have h1 := peekla_safe ctx .arg s1 w1
+    exact bind_safe ctx h1 (fun s2 _ e2 => pure_safe ctx _ s2 (h1.wf_ok ctx w1 e2))
+  · refine pmap_safe ctx _ (info_safe' ctx hw (fun s0 e0 r0 w0 => ?_))
+    exact safe_congr ctx (q := ignoreUntil0 ctx (peek (la ctx .arg)) (loopFuel ctx) s0.pos) rfl
+      (ignoreUntil0_safe' ctx _ _ _ s0 w0 (loopFuel_ok ctx s0 w0) (fun s' w _ _ => peekla_safe ctx .arg s' w))
+
+theorem callInner_safe (s : St) (hw : WF ctx s) : Safe ctx (callInner ctx none none) s := by
+  unfold callInner
+  have hid := ident_safe ctx s hw
+  have h0 : Safe ctx (Parse.bind (parseIdentifier ctx none) (fun n => Parse.bind (tk ctx .LParen) (fun _ => pure' n))) s :=
+    bind_safe ctx hid (fun s1 n e1 =>
+      tkbind_safe ctx _ _ s1 (hid.wf_ok ctx hw e1) (fun s2 _ w2 _ _ => pure_safe ctx _ s2 w2))
+  refine bind_safe ctx h0 (fun s1 name e1 => ?_)
+  have w1 := h0.wf_ok ctx hw e1
+  have hargs : Safe ctx (alt2
+      (pmap (fun _ => ([] : List (Ref Expr)))
+        (peek (altList [void (tk ctx .RParen), void (tk ctx .Semic), void (tk ctx .Eof)])))
+      (parseList ctx (fun (e : Expr) => e.info.range) (parseArgument ctx) (loopFuel ctx) none)) s1 := by
+    refine alt2_safe ctx (pmap_safe ctx _ (peek_safe ctx w1 (altList_safe ctx w1 _ ?_))) ?_
+    · intro p hp
+      simp only [List.mem_cons, List.not_mem_nil, or_false] at hp
+      rcases hp with rfl | rfl | rfl <;> exact void_safe ctx (tk_safe ctx _ _ w1)
+    · exact parseList_safe ctx _ _ s1 w1 (fun s' w _ => argument_safe ctx _ (wf_reref ctx w))
+  refine bind_safe ctx hargs (fun s2 args e2 => ?_)
+  have w2 := hargs.wf_ok ctx w1 e2
+  have h2 := expectInc_safe ctx (tk ctx .RParen) (.MissingClosing ')') s2 w2 (tk_safe ctx _ s2 w2)
+  refine bind_safe ctx h2 (fun s3 _ e3 => ?_)
+  have w3 := h2.wf_ok ctx w2 e3
+  have h3 := expectInc_safe ctx (tk ctx .Semic) .MissingTrailingSemic s3 w3 (tk_safe ctx _ s3 w3)
+  exact bind_safe ctx h3 (fun s4 _ e4 => pure_safe ctx _ s4 (h3.wf_ok ctx w3 e4))
+
+theorem call_safe (s : St) (hw : WF ctx s) : Safe ctx (parseCall ctx none) s := by
+  show Safe ctx (pmap _ (info (callInner ctx none none))) s
+  exact pmap_safe ctx _ (info_safe' ctx hw (fun s0 _ _ w0 => callInner_safe ctx s0 w0))
+
+theorem assignInner_safe (s : St) (hw : WF ctx s) : Safe ctx (assignInner ctx none none) s := by
+  unfold assignInner
+  have hv := variable_safe ctx s hw
+  have h0 : Safe ctx (Parse.bind (parseVariable ctx (exprFuel ctx) none) (fun v =>
+      Parse.bind (alt2 (tk ctx .Assign) (confusable (tk ctx .Eq) (.ConfusedToken assignS eqS))) (fun _ => pure' v))) s := by
+    refine bind_safe ctx hv (fun s1 v e1 => ?_)
+    have w1 := hv.wf_ok ctx hw e1
+    have ha := alt2_safe ctx (tk_safe ctx .Assign s1 w1)
+      (confusable_safe ctx (.ConfusedToken assignS eqS) w1 (tk_safe ctx .Eq _ (wf_errBuf ctx w1 [])))
+    exact bind_safe ctx ha (fun s2 _ e2 => pure_safe ctx _ s2 (ha.wf_ok ctx w1 e2))
+  refine bind_safe ctx h0 (fun s1 v e1 => ?_)
+  have w1 := h0.wf_ok ctx hw e1
+  have h1 := (expect_safe ctx (.ExpectedToken (chars "expression")) w1 (parser := refExpr ctx) (refExpr_safe ctx s1 w1)).1
+  refine bind_safe ctx h1 (fun s2 e e2 => ?_)
+  have w2 := h1.wf_ok ctx w1 e2
+  have h2 := expectInc_safe ctx (tk ctx .Semic) .MissingTrailingSemic s2 w2 (tk_safe ctx _ s2 w2)
+  exact bind_safe ctx h2 (fun s3 _ e3 => pure_safe ctx _ s3 (h2.wf_ok ctx w2 e3))
+
+theorem assignment_safe (s : St) (hw : WF ctx s) : Safe ctx (parseAssignment ctx none) s := by
+  show Safe ctx (pmap _ (info (assignInner ctx none none))) s
+  exact pmap_safe ctx _ (info_safe' ctx hw (fun s0 _ _ w0 => assignInner_safe ctx s0 w0))
+
+theorem docComments_safe (s : St) (hw : WF ctx s) : Safe ctx (docComments ctx) s :=
+  many0_safe ctx _ s.refPos _ s hw (loopFuel_ok ctx s hw) rfl (fun s' w _ _ => comment_safe ctx s' w)
+
+theorem stmtParseError_safe (s : St) (hw : WF ctx s) : Safe ctx (stmtParseError ctx) s := by
+  have h0 : Safe ctx (pmap (fun (p : List Token × AstInfo) =>
+      Stmt.error { p.2 with errors := p.2.errors ++
+        [⟨p.2.range, .UnexpectedCharacters (p.1.flatMap (fun t => displayToken t.ty))⟩] })
+    (info (Parse.bind (docComments ctx) (fun _ => ignoreUntil1 ctx (peek (la ctx .stmt)) (loopFuel ctx))))) s := by
+    refine pmap_safe ctx _ (info_safe' ctx hw (fun s0 _ _ w0 => ?_))
+    have hd := docComments_safe ctx s0 w0
+    refine bind_safe ctx hd (fun s1 _ e1 => ?_)
+    have w1 := hd.wf_ok ctx w0 e1
+    exact ignoreUntil1_safe ctx _ _ s1 w1 (loopFuel_ok ctx s1 w1) (fun s' w _ _ => peekla_safe ctx .stmt s' w)
+  unfold stmtParseError
+  cases h : (pmap (fun (p : List Token × AstInfo) =>
+      Stmt.error { p.2 with errors := p.2.errors ++
+        [⟨p.2.range, .UnexpectedCharacters (p.1.flatMap (fun t => displayToken t.ty))⟩] })
+    (info (Parse.bind (docComments ctx) (fun _ => ignoreUntil1 ctx (peek (la ctx .stmt)) (loopFuel ctx))))) s with
+  | ok s1 a => exact safe_of_ok ctx (s' := s1) (a := a) (by simp only [h]) (h0.ok _ _ h)
+  | err k x =>
+    obtain ⟨rfl, _⟩ := h0.er _ _ h
+    exact safe_of_err ctx (s' := s) (by simp only [h]) (Post.refl ctx hw)
+  | panic e => exact absurd h (h0.np e)
+
+/-! ### statements -/
+
+theorem ifInner_safe (ps : Option (Ref Stmt) → P (Ref Stmt)) (s : St) (hw : WF ctx s)
+    (hps : ∀ s', WF ctx s' → s.pos < s'.pos → Safe ctx (ps none) s') : Safe ctx (ifInner ctx none none none ps) s := by
+  unfold ifInner
+  refine tkbind_safe ctx _ _ s hw (fun s1 _ w1 l1 _ => ?_)
+  have h1 := expectInc_safe ctx (tk ctx .LParen) (.MissingOpening '(') s1 w1 (tk_safe ctx _ s1 w1)
+  refine bind_safe ctx h1 (fun s2 _ e2 => ?_)
+  have w2 := h1.wf_ok ctx w1 e2
+  have p2 := h1.ok _ _ e2
+  have h2 := (expect_safe ctx (.ExpectedToken (chars "expression")) w2 (parser := refExpr ctx) (refExpr_safe ctx s2 w2)).1
+  refine bind_safe ctx h2 (fun s3 _ e3 => ?_)
+  have w3 := h2.wf_ok ctx w2 e3
+  have p3 := h2.ok _ _ e3
+  have h3 := expectInc_safe ctx (tk ctx .RParen) (.MissingClosing ')') s3 w3 (tk_safe ctx _ s3 w3)
+  refine bind_safe ctx h3 (fun s4 _ e4 => ?_)
+  have w4 := h3.wf_ok ctx w3 e4
+  have p4 := h3.ok _ _ e4
+  have l4 : s.pos < s4.pos := by have := p2.1; have := p3.1; have := p4.1; omega
+  have h4 := (expect_safe ctx (.ExpectedToken (chars "expression")) w4 (parser := ps) (hps s4 w4 l4)).1
+  refine bind_safe ctx h4 (fun s5 _ e5 => ?_)
+  have w5 := h4.wf_ok ctx w4 e5
+  have p5 := h4.ok _ _ e5
+  have h5 : Safe ctx (opt (Parse.bind (tk ctx .Else) (fun _ => Parse.expect none ps (.ExpectedToken (chars "statement"))))) s5 :=
+    opt_safe ctx w5 (tkbind_safe ctx _ _ s5 w5 (fun s6 _ w6 l6 _ =>
+      (expect_safe ctx (.ExpectedToken (chars "statement")) w6 (parser := ps)
+        (hps s6 w6 (by have := p5.1; omega))).1))
+  exact bind_safe ctx h5 (fun s6 _ e6 => pure_safe ctx _ s6 (h5.wf_ok ctx w5 e6))
+
+theorem whileInner_safe (ps : Option (Ref Stmt) → P (Ref Stmt)) (s : St) (hw : WF ctx s)
+    (hps : ∀ s', WF ctx s' → s.pos < s'.pos → Safe ctx (ps none) s') : Safe ctx (whileInner ctx none none ps) s := by
+  unfold whileInner
+  refine tkbind_safe ctx _ _ s hw (fun s1 _ w1 l1 _ => ?_)
+  have h1 := expectInc_safe ctx (tk ctx .LParen) (.MissingOpening '(') s1 w1 (tk_safe ctx _ s1 w1)
+  refine bind_safe ctx h1 (fun s2 _ e2 => ?_)
+  have w2 := h1.wf_ok ctx w1 e2
+  have p2 := h1.ok _ _ e2
+  have h2 := (expect_safe ctx (.ExpectedToken (chars "expression")) w2 (parser := refExpr ctx) (refExpr_safe ctx s2 w2)).1
+  refine bind_safe ctx h2 (fun s3 _ e3 => ?_)
+  have w3 := h2.wf_ok ctx w2 e3
+  have p3 := h2.ok _ _ e3
+  have h3 := expectInc_safe ctx (tk ctx .RParen) (.MissingClosing ')') s3 w3 (tk_safe ctx _ s3 w3)
+  refine bind_safe ctx h3 (fun s4 _ e4 => ?_)
+  have w4 := h3.wf_ok ctx w3 e4
+  have p4 := h3.ok _ _ e4
+  have l4 : s.pos < s4.pos := by have := p2.1; have := p3.1; have := p4.1; omega
+  have h4 := (expect_safe ctx (.ExpectedToken (chars "expression")) w4 (parser := ps) (hps s4 w4 l4)).1
+  exact bind_safe ctx h4 (fun s5 _ e5 => pure_safe ctx _ s5 (h4.wf_ok ctx w4 e5))
+
+theorem blockInner_safe (pstmt : Option Stmt → P Stmt) (s : St) (hw : WF ctx s)
+    (hp : ∀ s', WF ctx s' → s.pos < s'.pos → Safe ctx (pstmt none) { s' with refPos := s'.pos }) :
+    Safe ctx (blockInner ctx none pstmt) s := by
+  unfold blockInner
+  refine tkbind_safe ctx _ _ s hw (fun s1 _ w1 l1 _ => ?_)
+  have h1 := many_safe ctx (fun (s : Stmt) => s.info.range) pstmt s1 w1 (fun s' w l => hp s' w (by omega))
+  refine bind_safe ctx h1 (fun s2 _ e2 => ?_)
+  have w2 := h1.wf_ok ctx w1 e2
+  have h2 := expectInc_safe ctx (tk ctx .RCurly) (.MissingClosing '}') s2 w2 (tk_safe ctx _ s2 w2)
+  exact bind_safe ctx h2 (fun s3 _ e3 => pure_safe ctx _ s3 (h2.wf_ok ctx w2 e3))
+
+/-- two levels of recursive descent per remaining token -/
+structure SSafe (F : Nat) : Prop where
+  stmt : ∀ s, WF ctx s → 2 * (ctx.toks.size - s.pos) + 2 ≤ F → Safe ctx (parseStmt ctx F none) s
+  iff : ∀ s, WF ctx s → 2 * (ctx.toks.size - s.pos) + 1 ≤ F → Safe ctx (parseIf ctx F none) s
+  whl : ∀ s, WF ctx s → 2 * (ctx.toks.size - s.pos) + 1 ≤ F → Safe ctx (parseWhile ctx F none) s
+  blk : ∀ s, WF ctx s → 2 * (ctx.toks.size - s.pos) + 1 ≤ F → Safe ctx (parseBlock ctx F none) s
+
+theorem ssafe : ∀ F, SSafe ctx F
+  | 0 => ⟨by intro s _ h; omega, by intro s _ h; omega, by intro s _ h; omega, by intro s _ h; omega⟩
+  | F + 1 => by
+    have ih := ssafe F
+    refine ⟨?_, ?_, ?_, ?_⟩
+    · intro s hw hf
+      show Safe ctx (altList [
+          pmap (fun (p : Token × AstInfo) => Stmt.empty p.2) (info (tk ctx .Semic)),
+          parseIf ctx F none, parseWhile ctx F none, parseBlock ctx F none,
+          pmap Stmt.call (parseCall ctx none), pmap Stmt.assign (parseAssignment ctx none), stmtParseError ctx]) s
+      refine altList_safe ctx hw _ ?_
+      intro p hp
+      simp only [List.mem_cons, List.not_mem_nil, or_false] at hp
+      rcases hp with rfl | rfl | rfl | rfl | rfl | rfl | rfl
+      · exact pmap_safe ctx _ (info_safe ctx hw (tk_safe ctx _ _ (wf_errBuf ctx hw [])))
+      · exact ih.iff s hw (by omega)
+      · exact ih.whl s hw (by omega)
+      · exact ih.blk s hw (by omega)
+      · exact pmap_safe ctx _ (call_safe ctx s hw)
+      · exact pmap_safe ctx _ (assignment_safe ctx s hw)
+      · exact stmtParseError_safe ctx s hw
+    · intro s hw hf
+      show Safe ctx (pmap _ (info (ifInner ctx none none none (refParse (parseStmt ctx F))))) s
+      refine pmap_safe ctx _ (info_safe' ctx hw (fun s0 e0 r0 w0 => ?_))
+      refine ifInner_safe ctx _ s0 w0 (fun s1 w1 l1 => ?_)
+      exact refParse_safe ctx w1 (ih.stmt _ (wf_reref ctx w1) (by
+        have := w1.2
+        show 2 * (ctx.toks.size - s1.pos) + 2 ≤ F
+        omega))
+    · intro s hw hf
+      show Safe ctx (pmap _ (info (whileInner ctx none none (refParse (parseStmt ctx F))))) s
+      refine pmap_safe ctx _ (info_safe' ctx hw (fun s0 e0 r0 w0 => ?_))
+      refine whileInner_safe ctx _ s0 w0 (fun s1 w1 l1 => ?_)
+      exact refParse_safe ctx w1 (ih.stmt _ (wf_reref ctx w1) (by
+        have := w1.2
+        show 2 * (ctx.toks.size - s1.pos) + 2 ≤ F
+        omega))
+    · intro s hw hf
+      show Safe ctx (pmap _ (info (blockInner ctx none (parseStmt ctx F)))) s
+      refine pmap_safe ctx _ (info_safe' ctx hw (fun s0 e0 r0 w0 => ?_))
+      refine blockInner_safe ctx _ s0 w0 (fun s1 w1 l1 => ?_)
+      exact ih.stmt _ (wf_reref ctx w1) (by
+        have := w1.2
+        show 2 * (ctx.toks.size - s1.pos) + 2 ≤ F
+        omega)
+
+theorem stmt_safe (s : St) (hw : WF ctx s) : Safe ctx (parseStmt ctx (stmtFuel ctx) none) s :=
+  (ssafe ctx _).stmt s hw (by have := hw.2; simp only [stmtFuel]; omega)
+
+/-! ### declarations -/
+
+/-- the `=` / `:` alternatives with their confusable spellings -/
+theorem confAlt_safe (k k1 k2 : Kind) (m1 m2 : Msg) (s : St) (hw : WF ctx s) :
+    Safe ctx (altList [tk ctx k, confusable (tk ctx k1) m1, confusable (tk ctx k2) m2]) s := by
+  refine altList_safe ctx hw _ ?_
+  intro p hp
+  simp only [List.mem_cons, List.not_mem_nil, or_false] at hp
+  rcases hp with rfl | rfl | rfl
+  · exact tk_safe ctx _ s hw
+  · exact confusable_safe ctx _ hw (tk_safe ctx _ _ (wf_errBuf ctx hw []))
+  · exact confusable_safe ctx _ hw (tk_safe ctx _ _ (wf_errBuf ctx hw []))
+
+/-- name, `=`/`:`, type, `;` — the common tail of type and variable declarations -/
+theorem declTail_safe (k k1 k2 : Kind) (m1 m2 m3 : Msg) (doc : List (List Char)) (s : St) (hw : WF ctx s) :
+    Safe ctx (Parse.bind (Parse.expect none (parseIdentifier ctx) (.ExpectedToken (chars "identifier"))) (fun name =>
+      Parse.bind (Parse.expect none (inc (altList [tk ctx k, confusable (tk ctx k1) m1, confusable (tk ctx k2) m2])) m3) (fun _ =>
+      Parse.bind (Parse.expect none (refTypeExpr ctx) (.ExpectedToken (chars "type expression"))) (fun te =>
+      Parse.bind (Parse.expect none (inc (tk ctx .Semic)) .MissingTrailingSemic) (fun _ =>
+        pure' (doc, name, te)))))) s := by
+  have h1 := (expect_safe ctx (.ExpectedToken (chars "identifier")) hw (parser := parseIdentifier ctx) (ident_safe ctx s hw)).1
+  refine bind_safe ctx h1 (fun s2 _ e2 => ?_)
+  have w2 := h1.wf_ok ctx hw e2
+  have h2 := expectInc_safe ctx _ m3 s2 w2 (confAlt_safe ctx k k1 k2 m1 m2 s2 w2)
+  refine bind_safe ctx h2 (fun s3 _ e3 => ?_)
+  have w3 := h2.wf_ok ctx w2 e3
+  have h3 := (expect_safe ctx (.ExpectedToken (chars "type expression")) w3 (parser := refTypeExpr ctx) (refTypeExpr_safe ctx s3 w3)).1
+  refine bind_safe ctx h3 (fun s4 _ e4 => ?_)
+  have w4 := h3.wf_ok ctx w3 e4
+  have h4 := expectInc_safe ctx (tk ctx .Semic) .MissingTrailingSemic s4 w4 (tk_safe ctx _ s4 w4)
+  exact bind_safe ctx h4 (fun s5 _ e5 => pure_safe ctx _ s5 (h4.wf_ok ctx w4 e5))
+
+theorem typeDeclInner_safe (s : St) (hw : WF ctx s) : Safe ctx (typeDeclInner ctx none none) s := by
+  unfold typeDeclInner
+  have hd := docComments_safe ctx s hw
+  refine bind_safe ctx hd (fun s1 doc e1 => ?_)
+  have w1 := hd.wf_ok ctx hw e1
+  exact tkbind_safe ctx _ _ s1 w1 (fun s2 _ w2 _ _ => declTail_safe ctx _ _ _ _ _ _ doc s2 w2)
+
+theorem typeDecl_safe (s : St) (hw : WF ctx s) : Safe ctx (parseTypeDecl ctx none) s := by
+  show Safe ctx (pmap _ (info (typeDeclInner ctx none none))) s
+  exact pmap_safe ctx _ (info_safe' ctx hw (fun s0 _ _ w0 => typeDeclInner_safe ctx s0 w0))
+
+theorem varDeclInner_safe (s : St) (hw : WF ctx s) : Safe ctx (varDeclInner ctx none none) s := by
+  unfold varDeclInner
+  have hd := docComments_safe ctx s hw
+  refine bind_safe ctx hd (fun s1 doc e1 => ?_)
+  have w1 := hd.wf_ok ctx hw e1
+  exact tkbind_safe ctx _ _ s1 w1 (fun s2 _ w2 _ _ => declTail_safe ctx _ _ _ _ _ _ doc s2 w2)
+
+theorem varDecl_safe (s : St) (hw : WF ctx s) : Safe ctx (parseVarDecl ctx none) s := by
+  show Safe ctx (alt2 (pmap _ (info (varDeclInner ctx none none))) (pmap _ (info (ignoreUntil1 ctx (peek (la ctx .var_dec)) (loopFuel ctx))))) s
+  refine alt2_safe ctx ?_ ?_
+  · exact pmap_safe ctx _ (info_safe' ctx hw (fun s0 _ _ w0 => varDeclInner_safe ctx s0 w0))
+  · refine pmap_safe ctx _ (info_safe' ctx hw (fun s0 _ _ w0 => ?_))
+    exact ignoreUntil1_safe ctx _ _ s0 w0 (loopFuel_ok ctx s0 w0) (fun s' w _ _ => peekla_safe ctx .var_dec s' w)
+
+theorem paramDeclInner_safe (s : St) (hw : WF ctx s) : Safe ctx (paramDeclInner ctx none none) s := by
+  unfold paramDeclInner
+  have hd := docComments_safe ctx s hw
+  refine bind_safe ctx hd (fun s1 doc e1 => ?_)
+  have w1 := hd.wf_ok ctx hw e1
+  have hrn : Safe ctx (alt2
+      (Parse.bind (tk ctx .Ref) (fun _ =>
+        pmap (fun n => (true, n)) (Parse.expect none (parseIdentifier ctx) (.ExpectedToken (chars "identifier")))))
+      (pmap (fun n => (false, some n)) (parseIdentifier ctx none))) s1 := by
+    refine alt2_safe ctx ?_ (pmap_safe ctx _ (ident_safe ctx s1 w1))
+    exact tkbind_safe ctx _ _ s1 w1 (fun s2 _ w2 _ _ =>
+      pmap_safe ctx _ (expect_safe ctx _ w2 (parser := parseIdentifier ctx) (ident_safe ctx s2 w2)).1)
+  refine bind_safe ctx hrn (fun s2 rn e2 => ?_)
+  have w2 := hrn.wf_ok ctx w1 e2
+  have h2 := expectInc_safe ctx (tk ctx .Colon) (.ExpectedToken colonS) s2 w2 (tk_safe ctx _ s2 w2)
+  refine bind_safe ctx h2 (fun s3 _ e3 => ?_)
+  have w3 := h2.wf_ok ctx w2 e3
+  have h3 := (expect_safe ctx (.ExpectedToken (chars "type expression")) w3 (parser := refTypeExpr ctx) (refTypeExpr_safe ctx s3 w3)).1
+  refine bind_safe ctx h3 (fun s4 _ e4 => ?_)
+  have w4 := h3.wf_ok ctx w3 e4
+  have h4 := peekla_safe ctx .param_dec s4 w4
+  exact bind_safe ctx h4 (fun s5 _ e5 => pure_safe ctx _ s5 (h4.wf_ok ctx w4 e5))
+
+theorem paramDecl_safe (s : St) (hw : WF ctx s) : Safe ctx (parseParamDecl ctx none) s := by
+  show Safe ctx (alt2 (pmap _ (info (paramDeclInner ctx none none)))
+    (pmap _ (info (fun s => ignoreUntil0 ctx (peek (la ctx .param_dec)) (loopFuel ctx) s.pos s)))) s
+  refine alt2_safe ctx ?_ ?_
+  · exact pmap_safe ctx _ (info_safe' ctx hw (fun s0 _ _ w0 => paramDeclInner_safe ctx s0 w0))
+  · refine pmap_safe ctx _ (info_safe' ctx hw (fun s0 _ _ w0 => ?_))
+    exact safe_congr ctx (q := ignoreUntil0 ctx (peek (la ctx .param_dec)) (loopFuel ctx) s0.pos) rfl
+      (ignoreUntil0_safe' ctx _ _ _ s0 w0 (loopFuel_ok ctx s0 w0) (fun s' w _ _ => peekla_safe ctx .param_dec s' w))
+
+theorem procDeclInner_safe (s : St) (hw : WF ctx s) : Safe ctx (procDeclInner ctx none) s := by
+  unfold procDeclInner
+  have hd := docComments_safe ctx s hw
+  refine bind_safe ctx hd (fun s1 doc e1 => ?_)
+  have w1 := hd.wf_ok ctx hw e1
+  refine tkbind_safe ctx _ _ s1 w1 (fun s2 _ w2 _ _ => ?_)
+  have h2 := (expect_safe ctx (.ExpectedToken (chars "identifier")) w2 (parser := parseIdentifier ctx) (ident_safe ctx s2 w2)).1
+  refine bind_safe ctx h2 (fun s3 _ e3 => ?_)
+  have w3 := h2.wf_ok ctx w2 e3
+  have h3 := expectInc_safe ctx (tk ctx .LParen) (.MissingOpening '(') s3 w3 (tk_safe ctx _ s3 w3)
+  refine bind_safe ctx h3 (fun s4 _ e4 => ?_)
+  have w4 := h3.wf_ok ctx w3 e4
+  have hps : Safe ctx (alt2
+      (pmap (fun _ => ([] : List (Ref ParamDecl)))
+        (peek (altList [void (tk ctx .RParen), void (tk ctx .LCurly), void (tk ctx .Eof)])))
+      (parseList ctx (fun (p : ParamDecl) => p.info.range) (parseParamDecl ctx) (loopFuel ctx) none)) s4 := by
+    refine alt2_safe ctx (pmap_safe ctx _ (peek_safe ctx w4 (altList_safe ctx w4 _ ?_))) ?_
+    · intro p hp
+      simp only [List.mem_cons, List.not_mem_nil, or_false] at hp
+      rcases hp with rfl | rfl | rfl <;> exact void_safe ctx (tk_safe ctx _ _ w4)
+    · exact parseList_safe ctx _ _ s4 w4 (fun s' w _ => paramDecl_safe ctx _ (wf_reref ctx w))
+  refine bind_safe ctx hps (fun s5 _ e5 => ?_)
+  have w5 := hps.wf_ok ctx w4 e5
+  have h5 := expectInc_safe ctx (tk ctx .RParen) (.MissingClosing ')') s5 w5 (tk_safe ctx _ s5 w5)
+  refine bind_safe ctx h5 (fun s6 _ e6 => ?_)
+  have w6 := h5.wf_ok ctx w5 e6
+  have h6 := expectInc_safe ctx (tk ctx .LCurly) (.MissingOpening '{') s6 w6 (tk_safe ctx _ s6 w6)
+  refine bind_safe ctx h6 (fun s7 _ e7 => ?_)
+  have w7 := h6.wf_ok ctx w6 e7
+  have h7 := many_safe ctx (fun (v : VarDecl) => v.info.range) (parseVarDecl ctx) s7 w7
+    (fun s' w _ => varDecl_safe ctx _ (wf_reref ctx w))
+  refine bind_safe ctx h7 (fun s8 _ e8 => ?_)
+  have w8 := h7.wf_ok ctx w7 e8
+  have h8 := many_safe ctx (fun (s : Stmt) => s.info.range) (parseStmt ctx (stmtFuel ctx)) s8 w8
+    (fun s' w _ => stmt_safe ctx _ (wf_reref ctx w))
+  refine bind_safe ctx h8 (fun s9 _ e9 => ?_)
+  have w9 := h8.wf_ok ctx w8 e9
+  have h9 := expectInc_safe ctx (tk ctx .RCurly) (.MissingClosing '}') s9 w9 (tk_safe ctx _ s9 w9)
+  exact bind_safe ctx h9 (fun s10 _ e10 => pure_safe ctx _ s10 (h9.wf_ok ctx w9 e10))
+
+theorem procDecl_safe (s : St) (hw : WF ctx s) : Safe ctx (parseProcDecl ctx none) s := by
+  show Safe ctx (pmap _ (info (procDeclInner ctx none))) s
+  exact pmap_safe ctx _ (info_safe' ctx hw (fun s0 _ _ w0 => procDeclInner_safe ctx s0 w0))
+
+theorem globalDecl_safe (s : St) (hw : WF ctx s) : Safe ctx (parseGlobalDecl ctx none) s := by
+  show Safe ctx (altList [pmap GlobalDecl.type (parseTypeDecl ctx none), pmap GlobalDecl.proc (parseProcDecl ctx none),
+    pmap _ (info (ignoreUntil1 ctx (peek (la ctx .global_dec)) (loopFuel ctx)))]) s
+  refine altList_safe ctx hw _ ?_
+  intro p hp
+  simp only [List.mem_cons, List.not_mem_nil, or_false] at hp
+  rcases hp with rfl | rfl | rfl
+  · exact pmap_safe ctx _ (typeDecl_safe ctx s hw)
+  · exact pmap_safe ctx _ (procDecl_safe ctx s hw)
+  · refine pmap_safe ctx _ (info_safe' ctx hw (fun s0 _ _ w0 => ?_))
+    exact ignoreUntil1_safe ctx _ _ s0 w0 (loopFuel_ok ctx s0 w0) (fun s' w _ _ => peekla_safe ctx .global_dec s' w)
+
+/-- **The parser never panics**: `Program::parse` on any token array, from its start -/
+theorem program_safe : Safe ctx (parseProgram ctx none) { pos := 0 } := by
+  have hw : WF ctx ({ pos := 0 } : St) := ⟨Nat.le_refl _, Nat.zero_le _⟩
+  show Safe ctx (pmap _ (Parse.bind (info (many ctx (fun (g : GlobalDecl) => g.info.range) (parseGlobalDecl ctx) (loopFuel ctx) none))
+    (fun r => Parse.bind (allConsuming ctx (tk ctx .Eof)) (fun _ => pure' r)))) _
+  refine pmap_safe ctx _ ?_
+  have h0 := info_safe' ctx hw (p := many ctx (fun (g : GlobalDecl) => g.info.range) (parseGlobalDecl ctx) (loopFuel ctx) none)
+    (fun s0 _ _ w0 => many_safe ctx _ _ s0 w0 (fun s' w _ => globalDecl_safe ctx _ (wf_reref ctx w)))
+  refine bind_safe ctx h0 (fun s1 r e1 => ?_)
+  have w1 := h0.wf_ok ctx hw e1
+  have h1 := allConsuming_safe ctx (tk_safe ctx .Eof s1 w1)
+  exact bind_safe ctx h1 (fun s2 _ e2 => pure_safe ctx _ s2 (h1.wf_ok ctx w1 e2))
+
 end Spl.Total
